@@ -5,7 +5,7 @@ Import ListNotations.
 Require Import Fggs.Model.Axis Fggs.Model.AxisCheck Fggs.Model.AxisEnum Fggs.Model.XVal Fggs.Model.PTensor Fggs.Model.PTensorCheck.
 Require Import Fggs.Proofs.Axis_sem Fggs.Proofs.Axis_unify Fggs.Proofs.Axis_antiunify Fggs.Proofs.Axis_complete Fggs.Proofs.Axis_repr.
 Require Import Fggs.Proofs.PTensor_sem Fggs.Proofs.PTensor_dense Fggs.Proofs.PTensor_views Fggs.Proofs.PTensor_unary.
-Require Import Fggs.Proofs.PTensor_binary Fggs.Proofs.PTensor_xval.
+Require Import Fggs.Proofs.PTensor_binary Fggs.Proofs.PTensor_xval Fggs.Proofs.PTensor_transpose.
 Local Open Scope nat_scope.
 
 (** * L2: the axis algebra *)
@@ -143,6 +143,14 @@ Theorem C06_permute : forall (V : Type) (t t' : ptensor V) dims idx idx',
   denote V t' idx' = denote V t idx.
 Proof. exact permute_refines. Qed.
 Print Assumptions C06_permute.
+
+(** transpose, with the five slices of the code *)
+Theorem C06_transpose : forall (V : Type) (t t' : ptensor V) d0 d1 idx,
+  covers (paxes t) (vaxes t) -> length idx = length (vaxes t) ->
+  pt_transpose V d0 d1 t = Some t' ->
+  denote V t' (if Nat.eqb d0 d1 then idx else swap_dims (Nat.min d0 d1) (Nat.max d0 d1) idx) = denote V t idx.
+Proof. exact transpose_refines. Qed.
+Print Assumptions C06_transpose.
 
 Theorem C06_T : forall (V : Type) (t : ptensor V) idx,
   covers (paxes t) (vaxes t) -> length idx = length (vaxes t) ->
